@@ -88,8 +88,28 @@ def run_hist(seed, n):
                 if dev_fault.get(i) == "crash":
                     raise RuntimeError("device crash")
 
+            # half of the histories: the application listed datapoint types (one of them does not fit the payloads: a logged decoding
+            # error, nothing more), and a second XKNX instance of the same process is at work on its own telegrams
+            busy = rnd.random() < 0.5
+            x2 = None
+            if busy:
+                xknx.group_address_dpt.set({"1/1/1": "9.001", "1/1/2": "5.001", "i-verif-q": "5.010"})
+                m2 = Mock()
+                m2.start = AsyncMock()
+                m2.stop = AsyncMock()
+                with patch("xknx.xknx.knx_interface_factory", return_value=m2):
+                    x2 = XKNX(rate_limit=50)
+
+                async def send2(cemi):
+                    x2.cemi_handler._l_data_confirmation_event.set()
+
+                m2.send_cemi = send2
+                x2.task_registry.start()
+                await x2.telegram_queue.start()
+                x2.started.set()
+                x2.connection_manager.connection_state_changed(XknxConnectionState.CONNECTED)
             dev_fault = {}
-            for a in ("1/1/1", "i-verif-q"):
+            for a in ("1/1/1", "1/1/2", "i-verif-q"):
                 sw = Switch(xknx, "sw" + a, group_address=a, sync_state=False)
                 sw.process = dev_process
                 xknx.devices.async_add(sw)
@@ -103,7 +123,10 @@ def run_hist(seed, n):
                     plan[i] = rnd.choice(FAULTS)
                     if rnd.random() < 0.2:
                         dev_fault[i] = rnd.choice(["xknx", "crash"])
-                    dst = parse_device_group_address("i-verif-q" if kind == "internal" else "1/1/1")
+                    dst = parse_device_group_address("i-verif-q" if kind == "internal" else rnd.choice(["1/1/1", "1/1/1", "1/1/2"]))
+                    if x2 is not None and rnd.random() < 0.4:
+                        x2.telegrams.put_nowait(Telegram(destination_address=parse_device_group_address("3/3/3"), payload=GroupValueWrite(DPTArray((200,))),
+                                                         direction=rnd.choice([TelegramDirection.INCOMING, TelegramDirection.OUTGOING])))
                     xknx.telegrams.put_nowait(Telegram(destination_address=dst, payload=GroupValueWrite(DPTArray((i,))),
                                                        direction=TelegramDirection.INCOMING if kind == "in" else TelegramDirection.OUTGOING))
                     ev.append({"ev": "put", "id": i, "kind": kind, "t": ms(loop.time())})
@@ -125,6 +148,10 @@ def run_hist(seed, n):
                 ev.append({"ev": "stop_failed:" + type(ex).__name__, "id": 0, "kind": "", "t": ms(loop.time())})
             xknx.task_registry.stop()
             xknx.started.clear()
+            if x2 is not None:
+                await asyncio.wait_for(x2.telegram_queue.stop(), 600)
+                x2.task_registry.stop()
+                x2.started.clear()
 
         loop.run_until_complete(main())
     return {"rate": rate, "ev": ev}
